@@ -39,7 +39,8 @@ Alphabet == <<
     Ret, RetE(V("a")), CallF >>
     \o [i \in 1..Len(Bodies) |-> Fun("ff", <<"p">>, Bodies[i])]
     \* a parameter named like a global, and a call that does not supply it: the parameter is null, the global is not read
-    \o << Fun("ff", <<"a">>, <<LogA, Assign("b", V("a")), RetE(V("a"))>>), Assign("b", CallE("ff", <<>>)) >>
+    \* (its own name: calling one of the looping ff bodies without its argument would never end when there is no limit)
+    \o << Fun("fg", <<"a">>, <<LogA, Assign("b", V("a")), RetE(V("a"))>>), Assign("b", CallE("fg", <<>>)) >>
     \* a function WITHOUT parameters that assigns: the assignment is local to the call all the same
     \o << Fun("ff", <<>>, <<Assign("a", Nm(7)), Assign("b", V("a")), LogA, RetE(V("b"))>>) >>
 
